@@ -689,14 +689,20 @@ fn vary_resize(rng: &mut Rng, prev: &ResizeOp, classes: &mut Vec<String>) -> Res
             r.src.content = Content::Random;
             classes.push("vary:content".into());
         }
-        5 => {
-            // shift the crop a little (only boxes)
-            if let Crop::Box(b) = r.crop {
-                let dx = if b[0].0 >= 0.25 { -0.25 } else { 0.0 };
-                r.crop = Crop::Box([F(b[0].0 + dx), b[1], b[2], b[3]]);
-            } else {
-                r.crop = Crop::None;
-            }
+        5 | 10 => {
+            // the same call with another crop box / centering
+            r.crop = match r.crop {
+                Crop::Box(b) if rng.chance(1, 2) && b[0].0 >= 0.25 => Crop::Box([F(b[0].0 - 0.25), b[1], b[2], b[3]]),
+                Crop::Box(b) if rng.chance(1, 2) && b[1].0 >= 1.0 => Crop::Box([b[0], F(b[1].0 - 1.0), b[2], b[3]]),
+                Crop::Fit(x, y) => Crop::Fit(F(1.0 - x.0.clamp(0.0, 1.0)), F(1.0 - y.0.clamp(0.0, 1.0))),
+                Crop::None if r.src.w > 1 && r.src.h > 1 => {
+                    let (sw, sh) = (r.src.w as f64, r.src.h as f64);
+                    let l = (rng.f64() * sw * 0.5).floor();
+                    let t = (rng.f64() * sh * 0.5).floor();
+                    Crop::Box([F(l), F(t), F(((sw - l) * (0.5 + 0.5 * rng.f64())).max(1.0)), F(((sh - t) * (0.5 + 0.5 * rng.f64())).max(1.0))])
+                }
+                _ => Crop::None,
+            };
             classes.push("vary:crop".into());
         }
         6..=8 => {
